@@ -23,7 +23,6 @@ REASONS = {
     "fsm::Queue::<T>::dequeue|unwrap|unwrap|1": "only caller mainEventLoop dequeues on the not-empty branch (C03 R03.1)",
     # ---- session plumbing
     "fsm::Fsm::invoke|unwrap|unwrap|5": "GlobalData.executor is set in the session thread before interpret() and never cleared",
-    "fsm::Fsm::invoke|unwrap|unwrap|8": "GlobalData.executor is set in the session thread before interpret() and never cleared",
     "event_io_processor::scxml_event_io_processor::ScxmlEventIOProcessor::send_to_session|diverge|panic!|1": "GlobalData.executor is set in the session thread before interpret() and never cleared",
     "fsm::Fsm::mainEventLoop|unwrap|unwrap|9": "recv() fails only when every Sender is dropped; the session's own GlobalData.externalQueue holds one for the whole run",
     "fsm::Fsm::returnDoneEvent|diverge|panic!|1": "caller_invoke_id and parent_session_id are copied together from the Fsm built by FsmExecutor::execute_with_data*, which sets both or neither",
